@@ -321,7 +321,7 @@ def h_reads(ctx, mods, shape):
     if tmo is not None:
         for p_ in peers:
             pass
-    drv.call(tr.connect, tmo)
+    drv.call(tr.connect, shape['connect_t'] if 'connect_t' in shape else tmo)
     if tmo is not None:
         # a pause is at most two timeouts long, so every chunk arrives after at most two timed-out reads
         for (delay, chunk) in peers[-1].later:
@@ -407,6 +407,9 @@ def h_lifecycle(ctx, mods, shape):
             elif step == 'read':
                 d = drv.call(tr.bulk_read, 2, 1)
                 ctx.check(as_sym(d) == created[-1].delivered[-len(d):] and len(d) >= 1, "a read after (re)connect returns the new peer's bytes")
+            elif step == 'write_none':
+                k = drv.call(tr.bulk_write, b'ping', None)
+                ctx.check(k == 4 and created[-1].received[-4:] == b'ping', 'bulk_write without a timeout delivers to the current peer')
             elif step == 'write':
                 k = drv.call(tr.bulk_write, b'ping', 1)
                 ctx.check(k == 4 and created[-1].received == b'ping', 'bulk_write delivers to the current peer and returns the count')
@@ -518,9 +521,11 @@ def shapes(tier, seed):
             if len(ch) <= 2:
                 out.append({'h': 'reads', 'impl': impl, 'nbytes': n, 'chunks': ch, 'maxreq': 3, 'vary_req': True, 't': 'sym', 'max_paths': 200000})
             out.append({'h': 'reads', 'impl': impl, 'nbytes': n, 'chunks': ch, 'maxreq': 6, 'first_late': True, 't': 'sym'})
+            # connected with a timeout (non-blocking socket), then read without one: must wait for the peer
+            out.append({'h': 'reads', 'impl': impl, 'nbytes': n, 'chunks': ch, 'maxreq': 6, 'first_late': True, 't': 'none', 'connect_t': 1})
         for seq in (['connect', 'read', 'close', 'close'], ['connect', 'close_oserror', 'close'], ['close', 'connect', 'read', 'write'],
                     ['connect', 'read', 'close', 'connect', 'read', 'write'], ['connect', 'close_oserror', 'connect', 'read', 'write', 'close', 'close'],
-                    ['connect', 'write', 'close_oserror', 'connect', 'write']):
+                    ['connect', 'write', 'close_oserror', 'connect', 'write'], ['connect', 'write_none', 'read', 'close']):
             out.append({'h': 'lifecycle', 'impl': impl, 'seq': seq})
         out.append({'h': 'session', 'impl': impl, 'ops': ['shell', 'stat', ['pull', {}], ['push', {'size': 5000}]], 'frag_budget': 1})
         out.append({'h': 'session', 'impl': impl, 'ops': ['shell', ['push', {'size': 5000}]], 'frag_budget': 0, 'nshort': 1})
